@@ -101,6 +101,7 @@ type Result struct {
 	Stalls      int
 	TimeJumps   int
 	Quiescences int
+	RandSeed    uint64
 	Data        interface{} // set by the scenario through Env.SetData, for checks after the run
 }
 
@@ -435,7 +436,7 @@ func (s *Sim) result() Result {
 	defer s.mu.Unlock()
 	r := Result{
 		Violation: s.viol, Steps: int(s.seq), Workers: s.nworkers, Switches: s.switches,
-		Data: s.data, SchedHash: s.hash, Trace: s.trace, StepLimit: s.stepLim, Infra: s.infra,
+		RandSeed: s.cfg.RandSeed, Data: s.data, SchedHash: s.hash, Trace: s.trace, StepLimit: s.stepLim, Infra: s.infra,
 		Faults: s.faults, Probes: s.probes, Stalls: s.stalls, TimeJumps: s.jumps, Quiescences: s.quiesc,
 	}
 	if !s.cfg.Replay {
